@@ -541,7 +541,7 @@ class Scalar(Parametrized):
     def grad(self, var, **params):
         if var not in self.free_symbols:
             return Sum([], self.dom, self.cod)
-        return Scalar(self.array[0].diff(var))
+        return Scalar(self.array[0].diff(var), is_mixed=self.is_mixed)
 
     def dagger(self):
         return self if self._dagger is None\
